@@ -149,10 +149,10 @@ def ipToKey (ip : Bytes) : UInt32 :=
 /-- the key bytes cilium writes for a Go `uint32` on the little-endian host -/
 def keyBytes (ip : Bytes) : Bytes := leBytes 4 (ipToKey ip).toNat
 
-/-- "Default burst: 1 second of traffic, minimum 64KB", capped at 10 MB; `uint32(bps / 8)` truncates -/
+/-- `defaultBurst`: 1 second of traffic, minimum 64KB, capped at 10 MB (clamped in 64 bits, then narrowed) -/
 def defaultBurst (bps : UInt64) : UInt32 :=
-  let b := (bps / 8).toUInt32
-  if b < 65536 then 65536 else if b > 10 * 1024 * 1024 then 10 * 1024 * 1024 else b
+  let b := bps / 8
+  if b < 65536 then 65536 else if b > 10 * 1024 * 1024 then 10 * 1024 * 1024 else b.toUInt32
 
 def egressBucket (q : QoS) : Bucket :=
   let burst := if q.burst = 0 then defaultBurst q.down else q.burst
@@ -170,6 +170,53 @@ def setSubscriberQoS (m : Maps) (q : QoS) : Maps :=
 /-- `RemoveSubscriberQoS` -/
 def removeSubscriberQoS (m : Maps) (ip : Bytes) : Maps :=
   { egress := AMap.erase m.egress (keyBytes ip), ingress := AMap.erase m.ingress (keyBytes ip) }
+
+/-! ## the whole control plane: pkg/radius/policy.go + the manager's bookkeeping -/
+
+/-- `radius.QoSPolicy` -/
+structure Policy where
+  name : String
+  down : UInt64
+  up : UInt64
+  burst : UInt32
+  prio : UInt8
+deriving DecidableEq, Repr
+
+/-- `PolicyManager.policies` -/
+abbrev PolicyTable := AMap String Policy
+
+/-- `AddPolicy`: defines or REdefines the policy of that name -/
+def addPolicy (t : PolicyTable) (p : Policy) : PolicyTable := AMap.insert t p.name p
+
+/-- `RemovePolicy` -/
+def removePolicy (t : PolicyTable) (name : String) : PolicyTable := AMap.erase t name
+
+/-- the QoS a policy means for an address (what `SetSubscriberPolicy` passes on) -/
+def Policy.qos (p : Policy) (ip : Bytes) : QoS :=
+  { ip := ip, down := p.down, up := p.up, burst := p.burst, prio := p.prio }
+
+/-- control-plane state: the kernel maps, `Manager.subscribers`, the policy table -/
+structure Ctl where
+  maps : Maps := {}
+  subs : AMap Bytes QoS := []
+  pols : PolicyTable := []
+
+/-- `Manager.SetSubscriberQoS` with its bookkeeping -/
+def Ctl.setQoS (c : Ctl) (q : QoS) : Ctl :=
+  { c with maps := setSubscriberQoS c.maps q, subs := AMap.insert c.subs (keyBytes q.ip) q }
+
+/-- `Manager.SetSubscriberPolicy`: `false` = "policy not found", nothing changes -/
+def Ctl.setPolicy (c : Ctl) (ip : Bytes) (name : String) : Ctl × Bool :=
+  match AMap.lookup c.pols name with
+  | none => (c, false)
+  | some p => (c.setQoS (p.qos ip), true)
+
+/-- `Manager.RemoveSubscriberQoS` -/
+def Ctl.remove (c : Ctl) (ip : Bytes) : Ctl :=
+  { c with maps := removeSubscriberQoS c.maps ip, subs := AMap.erase c.subs (keyBytes ip) }
+
+/-- `Manager.GetSubscriberCount` -/
+def Ctl.count (c : Ctl) : Nat := c.subs.length
 
 /-! ## arrival sequences (used by the theorems and by `poll`) -/
 
